@@ -9,7 +9,7 @@ compared (duplicates are C02's business).
 from __future__ import annotations
 
 from .. import qast as Q
-from ..common import (X, Y, A, L, leaves_single, leaves_xy, REPRESENTATIVE_4, REPRESENTATIVE_8, XY_REP, rich_world, VARS3, VARS_SELF,
+from ..common import (X, Y, Z, A, L, leaves_single, leaves_xy, REPRESENTATIVE_4, REPRESENTATIVE_8, XY_REP, rich_world, VARS3, VARS_SELF,
                       grid_world, eval_rows, diff_rows, row_labels, is_exc, root_kind, to_fn_form)
 from ..isolate import run_isolated
 from ..space import trees_by_depth
@@ -56,6 +56,11 @@ def cases(tier, inst):
     for t in trees_by_depth(SELF_LEAVES[:4] if thorough else SELF_LEAVES[:3], 2):
         if Q.depth(t) == 2:
             yield ("self", t, "op")
+    # three variables, every leaf over ONE of them (and one join leaf): De Morgan of a negated tree turns into
+    # conjunctions of disjunctions over different variable sets
+    for t in trees_by_depth(XYZ_LEAVES, 2):
+        if Q.depth(t) >= 1 and (thorough or Q.depth(t) == 1 or hash(t) % 3 == 0):
+            yield ("xyz", t, "op")
     # values that are only PARTIALLY ordered (sets under <, <=) or unordered (NaN): not_(a < b) is `not a < b`, which is
     # not `a >= b` there
     for t in trees_by_depth(PO_LEAVES, 1):
@@ -71,6 +76,8 @@ def cases(tier, inst):
                     yield (vk, t, "op")
 
 
+XYZ_LEAVES = [("cmp", "le", A(Z, "p"), L(1)), ("cmp", "ne", A(X, "p"), L(1)), ("cmp", "ne", A(Y, "q"), L(1)),
+              ("cmp", "eq", A(X, "p"), A(Y, "p"))]
 SELF_LEAVES = [("cmp", "eq", X, Y), ("cmp", "ne", X, Y), ("cmp", "eq", X, ("ob", "DA", 1)), ("cmp", "ne", ("ob", "DA", 2), Y),
                ("cmp", "lt", A(X, "p"), A(Y, "p")), ("cmp", "eq", A(X, "q"), A(Y, "q"))]
 
@@ -92,6 +99,8 @@ def queries_of(case):
         vars_, sel = VARS1, (X,)
     elif vk in ("self", "po"):
         vars_, sel = VARS_SELF, (X, Y)
+    elif vk == "xyz":
+        vars_, sel = VARS3, (X, Y, Z)
     else:
         vars_, sel = VARS3[:2], (X, Y)
     mk = lambda c: ("Q", "an", "setof", sel, (c,), vars_)     # noqa: E731
